@@ -69,6 +69,7 @@ def instances(tier, seed):
     # the same fragment OBJECT extended twice with default type merging, re-parameterised in between (new labels, masses, coefficient
     # texts, one more coefficient row): the second call must bring the fragment's tables as they are at the time of that call
     add("ext:bond:twice-default-reparameterised", Ns=3, No=2, kind='bond', S=1, topo=0, tables='both', mode='twice-reparam', cost=60)
+    add("ext:bond:empty-self:fragment-object-reused-and-edited-in-place", Ns=0, No=2, kind='bond', S=0, topo=0, tables='both', mode='empty-self-fragment-reused', cost=5)
     add("ext:angle:map-later-atom", Ns=3, No=3, kind='angle', S=1, topo=1, tables='both', mode='default', cost=60)
     if big:
         add("ext:bond:S2xO2:map", Ns=4, No=3, kind='bond', S=2, topo=0, tables='both', mode='default', cost=600)
@@ -186,6 +187,28 @@ def body(ctx, p):
         sp2 = spec_from_state(a)
         a.extend(o, offsets=offs, structure_index_map=m)
         check_extend(ctx, sp2, so, keep, a, shared_offsets=offs, types_already_merged=(sp, so), label='2nd: ')
+    elif p['mode'] == 'empty-self-fragment-reused':
+        # the usual "place translated copies of ONE fragment object into an empty box" loop: what was appended must not follow later in-place
+        # edits of the fragment object (translate, regroup, rescale charges)
+        a = ctx.ms.Atoms()
+        sp0 = spec_from_state(a)
+        a.extend(o)
+        check_extend(ctx, sp0, so, {}, a, shared_offsets=None, label='1st: ')
+        snap = spec_from_state(a)
+        o.translate((1.5, -0.25, 3.0))
+        o.groups[:] = 7
+        o.charges *= 2
+        o.charges += 1
+        now = spec_from_state(a)
+        with core.nosimplify():
+            ctx.require('atoms appended to an empty structure do not follow later in-place edits of the fragment object',
+                        AND(now.N == snap.N, *[EQ(now.pos[i][c], snap.pos[i][c]) for i in range(min(now.N, snap.N)) for c in range(3)],
+                            *[EQ(x, y) for x, y in zip(now.charges + now.groups, snap.charges + snap.groups)]))
+        so2 = spec_from_state(o)
+        o_before = so2
+        sp2 = spec_from_state(a)
+        a.extend(o)
+        check_extend(ctx, sp2, so2, {}, a, shared_offsets=None, label='2nd (fragment moved): ')
     # the other structure is not modified
     oa = spec_from_state(o)
     with core.nosimplify():
